@@ -65,12 +65,12 @@ def sampled_sizes(ctx, rule):
     except Exception:      # pylint: disable=broad-except
       continue
     fn = fi.node
-    for c in ast.walk(fn):
-      if not (isinstance(c, ast.Call) and (dotted(c.func) or '').endswith('random.choice') and c.args):
-        continue
+    draws = [c for c in ast.walk(fn) if isinstance(c, ast.Call) and (dotted(c.func) or '').endswith('random.choice') and c.args and any(k.arg == 'p' for k in c.keywords)]
+    if not draws and fq.endswith('extend_event_sequences'):
+      why = 'cannot classify: extend_event_sequences no longer draws the class with np.random.choice(n, p=...)'
+      ctx.ob(rule, fi, fn, False, why, construct='np.random.choice(n, p=d): n is the size of d', unknown=why)
+    for c in draws:
       pk = next((k.value for k in c.keywords if k.arg == 'p'), None)
-      if pk is None:
-        continue
       n = c.args[0]
       if isinstance(n, ast.Name):
         n = U.reaching_def(fn, n.id, c) or U.expand_locals(fn, n, at=c, depth=1)
@@ -701,3 +701,4 @@ RENAME_FUNCS = [(ED, 'LookbackEventSequenceEncoderDecoder.events_to_label'), (ED
                 (ED, 'EventSequenceEncoderDecoder.encode'), (PR, 'PianorollEncoderDecoder.class_index_to_event')]
 
 EXPLANATION += (' Location-independent additions: PIANOROLL/wide-label (no numpy fixed-width operand where the label needs input_size bits), GEN/chord-label-split (C09 rule shared), GEN/full-history (history handed to class_index_to_event complete or bounded by max(distances)).')
+EXPLANATION += (' Round 6: ' + 'GEN/sampled-size: the size given to np.random.choice is the length of a distribution taken from the same element as p.')
